@@ -677,6 +677,10 @@ func (fr *frame) contractCall(ct *Contract, callee *ssa.Function, cc *ssa.CallCo
 		}
 	}
 	assumeAll(ct.Ensures, True)
+	assumeAll(ct.EnsuresAssumed, True)
+	if len(ct.EnsuresAssumed) > 0 {
+		c.Defaults[fmt.Sprintf("ensures_assumed clauses of %s (used at call sites, not checked against its body)", name)] = true
+	}
 	if hasErr {
 		assumeAll(ct.EnsuresOK, errNil)
 		assumeAll(ct.EnsuresErr, Not(errNil))
